@@ -234,7 +234,20 @@ func c19PreParamsDisk(r *verifsim.Run) {
 			r.Probe("damaged-preparams-file-accepted-as-record")
 			if len(f.Data) == 0 {
 				r.Probe("EMPTY-preparams-file-accepted-as-record")
-				if c19ConsumeEmpty(r, pp) {
+			}
+			// a record with a zero modulus / exponent is not a value any
+			// encoder produces: what does the member code that consumes
+			// pre-parameters do with it?
+			d := pp.data
+			zero := false
+			for _, x := range []*big.Int{d.PaillierSK.N, d.PaillierSK.LambdaN, d.PaillierSK.PhiN, d.NTildei, d.H1i, d.H2i, d.Alpha, d.Beta, d.P, d.Q} {
+				if x == nil || x.Sign() == 0 {
+					zero = true
+				}
+			}
+			if zero {
+				r.Probe("accepted-preparams-record-with-a-zero-number")
+				if c19ConsumeEmpty(r, pp, len(f.Data)) {
 					return
 				}
 			}
@@ -283,7 +296,7 @@ func c19PreParamsDisk(r *verifsim.Run) {
 // pre-parameters (initializeTssRoundOne + tssRoundOne, i.e. tss-lib's first
 // key generation round) is run on it in a recoverable goroutine with a wall
 // limit; a panic there means the node dies in its next DKG.
-func c19ConsumeEmpty(r *verifsim.Run, pp *PreParams) bool {
+func c19ConsumeEmpty(r *verifsim.Run, pp *PreParams, fileLen int) bool {
 	logger := log.Logger("verif-c19-preparams")
 	type outcome struct {
 		panicked bool
@@ -311,7 +324,7 @@ func c19ConsumeEmpty(r *verifsim.Run, pp *PreParams) bool {
 	case o := <-done:
 		if o.panicked {
 			r.Failf("C19:accepted-record-crashes-consumer:preparams:"+verifadapt.PanicSite(o.stk),
-				"an EMPTY pre-parameters file (crash between create/truncate and write of preParamsStorage.Save) is accepted at pool start as a record (PreParams.Unmarshal returns all-zero numbers, ValidateWithProof only checks for nil); the member code that consumes it in the next DKG (initializeTssRoundOne/tssRoundOne) panics: %v\n%s", o.val, o.stk)
+				"a damaged pre-parameters file of %d bytes (0 = the EMPTY file a crash between create/truncate and write of preParamsStorage.Save leaves; otherwise a structurally valid record with a missing / emptied number) is accepted at pool start as a record (PreParams.Unmarshal turns absent numbers into zero, ValidateWithProof only checks for nil); the member code that consumes it in the next DKG (initializeTssRoundOne/tssRoundOne) panics: %v\n%s", fileLen, o.val, o.stk)
 			return true
 		}
 		if o.err != nil {
